@@ -155,12 +155,18 @@ def run(ctx):
             for delta in (-1, 1):
                 shapes.append(("row", bad_row, delta))
         shapes += [("side", None, -1), ("side", None, 1)]
+        if size >= 2:
+            # two malformed rows whose lengths add up to the right total (one cell too many, one too few)
+            shapes += [("rows-cancel", (0, size - 1), 1), ("rows-cancel", (size - 1, 0), 1)]
         for kind, bad_row, delta in shapes:
             try:
                 V, P, W = world(h, names + ["e"])
                 rows = [[1] * size for _ in range(size)]
                 vnames = list(names)
-                if kind == "row":
+                if kind == "rows-cancel":
+                    rows[bad_row[0]] = [1] * (size + 1)
+                    rows[bad_row[1]] = [1] * (size - 1)
+                elif kind == "row":
                     rows[bad_row] = [1] * (size + delta)
                 else:
                     vnames = names[:size + delta] if delta < 0 else names + ["e"]
@@ -183,8 +189,8 @@ def run(ctx):
                 pass
             res.ob(why is None, sig=("malformed", size, kind, bad_row, delta))
             if why:
-                res.violation("REJECT-WHOLE", MAT_FN, f"malformed={kind},bad-row-is-first={bad_row == 0}", f"matrix of side {size} with {'row ' + str(bad_row) + ' of length ' + str(size + delta) if kind == 'row' else 'side array of length ' + str(size + delta)}: {why}",
-                              replay=f"from edgegraph.structure import *\nfrom edgegraph.builder.adjmatrix import load_adj_matrix\nvs = [Vertex() for _ in range({size})]\nm = [[1]*{size} for _ in range({size})]\n" + (f"m[{bad_row}] = [1]*{size + delta}\n" if kind == "row" else f"vs = vs[:{size + delta}] if {delta} < 0 else vs + [Vertex()]\n") + "try:\n    load_adj_matrix(m, vs)\nexcept ValueError: pass\nprint([v.universes for v in vs])")
+                res.violation("REJECT-WHOLE", MAT_FN, f"malformed={kind},bad-row-is-first={bad_row == 0}", f"matrix of side {size} with {'row ' + str(bad_row) + ' of length ' + str(size + delta) if kind == 'row' else ('rows ' + str(bad_row) + ' one cell too long / too short' if kind == 'rows-cancel' else 'side array of length ' + str(size + delta))}: {why}",
+                              replay=f"from edgegraph.structure import *\nfrom edgegraph.builder.adjmatrix import load_adj_matrix\nvs = [Vertex() for _ in range({size})]\nm = [[1]*{size} for _ in range({size})]\n" + (f"m[{bad_row}] = [1]*{size + delta}\n" if kind == "row" else (f"m[{bad_row[0]}] = [1]*{size + 1}; m[{bad_row[1]}] = [1]*{size - 1}\n" if kind == "rows-cancel" else f"vs = vs[:{size + delta}] if {delta} < 0 else vs + [Vertex()]\n")) + "try:\n    load_adj_matrix(m, vs)\nexcept ValueError: pass\nprint([v.universes for v in vs])")
     res.rule("BUILD-MATRIX", m)
     from rules import structural
     structural.validate_first(ctx, MAT_FN)
